@@ -52,9 +52,11 @@ def _has_await(st: ast.AST) -> bool:
 
 
 def _delegates(fn: ast.AST) -> bool:
-    """the method gets its item from self.receive() instead of the queue"""
-    return any(isinstance(c, ast.Call) and ast.unparse(c.func) == "self.receive" for c in ast.walk(fn)) and not any(
-        isinstance(c, ast.Call) and ast.unparse(c.func).endswith("_queue.get") for c in ast.walk(fn))
+    """the method gets its item from its sibling (self.receive() / self.__anext__()) instead of the queue; the sibling is
+    then the one that is checked"""
+    sib = "self.__anext__" if fn.name == "receive" else "self.receive"
+    return any(isinstance(c, ast.Call) and ast.unparse(c.func) == sib for c in ast.walk(fn)) and not any(
+        isinstance(c, ast.Call) and (ast.unparse(c.func).endswith("_queue.get") or ast.unparse(c.func).endswith("_queue.get_nowait")) for c in ast.walk(fn))
 
 
 def rule_A1(ctx) -> None:
@@ -63,8 +65,8 @@ def rule_A1(ctx) -> None:
     for m in ("receive", "__anext__"):
         fn = mod.func(f"{CLS}.{m}")
         ctx.analysed(f"{CLS}.{m}")
-        if m == "__anext__" and _delegates(fn):
-            ctx.proved("A1", f"{m}:waiting_receivers-pairing", mod.loc(fn), "delegates to receive()")
+        if _delegates(fn):
+            ctx.proved("A1", f"{m}:waiting_receivers-pairing", mod.loc(fn), "delegates to its sibling")
             n_inst += 1
             continue
         g = CFG(fn)
@@ -102,8 +104,8 @@ def rule_A2(ctx) -> None:
     n_inst = 0
     for m in ("receive", "__anext__"):
         fn = mod.func(f"{CLS}.{m}")
-        if m == "__anext__" and _delegates(fn):
-            ctx.proved("A2", f"{m}:task_done-after-successful-get", mod.loc(fn), "delegates to receive()")
+        if _delegates(fn):
+            ctx.proved("A2", f"{m}:task_done-after-successful-get", mod.loc(fn), "delegates to its sibling")
             continue
         g = CFG(fn)
         gets = _stmt_nodes(g, lambda s: _calls(s, "_queue.get") or _calls(s, "_queue.get_nowait"))   # get_nowait completes normally only with an item
@@ -216,8 +218,8 @@ def rule_A4(ctx) -> None:
     mod = ctx.repo.mod(M_CHANNEL)
     for m in ("receive", "__anext__"):
         fn = mod.func(f"{CLS}.{m}")
-        if m == "__anext__" and _delegates(fn):
-            ctx.proved("A4", f"{m}:done-check-then-increment", mod.loc(fn), "delegates to receive()")
+        if _delegates(fn):
+            ctx.proved("A4", f"{m}:done-check-then-increment", mod.loc(fn), "delegates to its sibling")
             continue
         g = CFG(fn, implicit_exc=False)
         tests = [nd for nd in g.nodes if nd.kind == "test" and isinstance(nd.stmt, ast.If) and "self.done()" in ast.unparse(nd.stmt.test)]
@@ -357,6 +359,20 @@ def rule_A5(ctx) -> None:
         ctx.refuted("A5", "sentinel:only-flush-puts", ",".join(sorted(putters)) or "none", mod.loc(cls), f"the flush sentinel is put by {sorted(putters)}; only _flush_queue may inject it")
     for m in ("receive", "__anext__"):
         fn = mod.func(f"{CLS}.{m}")
+        if m == "receive" and _delegates(fn):
+            # the end of the stream is __anext__'s StopAsyncIteration: caught exactly, turned into None; the item is
+            # returned as it came (the sentinel never leaves __anext__, which is checked on its own)
+            handlers = [h for t in ast.walk(fn) if isinstance(t, ast.Try) for h in t.handlers]
+            stop = [h for h in handlers if h.type is not None and "StopAsyncIteration" in ast.unparse(h.type)]
+            broad = [h for h in handlers if h.type is None or ast.unparse(h.type) in ("Exception", "BaseException")]
+            if stop and not broad:
+                ctx.proved("A5", f"{m}:sentinel-never-returned", mod.loc(fn), "delegates to __anext__(); end recognised by StopAsyncIteration")
+            elif broad:
+                ctx.refuted("A5", f"{m}:sentinel-never-returned", "broad-except", mod.loc(broad[0]),
+                            "receive() turns every exception of __anext__() into the end of the stream: a cancelled or timed out receive() returns None instead of raising")
+            else:
+                ctx.inconclusive("A5", f"{m}:sentinel-never-returned", "delegating receive() without a StopAsyncIteration handler", mod.loc(fn))
+            continue
         if m == "__anext__" and _delegates(fn):
             # end of stream is receive()'s None: it must be recognised by identity, a falsy *item* is a legitimate item
             tests_ = [n for n in ast.walk(fn) if isinstance(n, ast.If) and any(isinstance(x, ast.Raise) and "StopAsyncIteration" in ast.unparse(x) for x in ast.walk(n))]
@@ -442,8 +458,8 @@ def rule_A6(ctx) -> None:
                     return "else"
         return "top"
 
-    if _delegates(mod.func(f"{CLS}.__anext__")):
-        ctx.proved("A6", "receive~__anext__", mod.loc(mod.func(f"{CLS}.__anext__")), "__anext__ delegates to receive()")
+    if _delegates(mod.func(f"{CLS}.__anext__")) or _delegates(mod.func(f"{CLS}.receive")):
+        ctx.proved("A6", "receive~__anext__", mod.loc(mod.func(f"{CLS}.__anext__")), "one delegates to the other: a single implementation of the bookkeeping")
         return
     a = shape(mod.func(f"{CLS}.receive"))
     b = shape(mod.func(f"{CLS}.__anext__"))
